@@ -62,6 +62,11 @@ def items(tier, seed):
                 out.append({"k": "order_cross", "cls": cls, "other": other, "side": side})
     for u in ("m", "cm", "degC", "K", "psi", "kg", "s", "m3/d", "%", "-", "ft", "degF"):
         out.append({"k": "order_fp", "u": u})
+    # auxiliary, concrete: extreme magnitudes in mixed units (a C-level helper such as math.isclose reads a proxy as NaN and would hide a tolerance there)
+    for qt, u, v in (("length", "m", "cm"), ("length", "cm", "m"), ("length", "km", "mm"), ("time", "s", "ms"), ("time", "h", "us"), ("temperature", "degC", "K"), ("mass", "kg", "mg"),
+                     ("pressure", "psi", "Pa")):
+        for cls in ("Scalar", "FractionScalar"):
+            out.append({"k": "order_aux", "qt": qt, "u": u, "v": v, "cls": cls})
     names = pool_names()
     out += [{"k": "eq", "a": a, "b": b} for a in names for b in names]
     out.append({"k": "order", "cls": "Scalar", "qt": "length", "u": "m", "v": "ft", "canary": True})
@@ -150,6 +155,12 @@ def pool(V):
     p["fs_huge"] = FractionScalar(FractionValue(1, Fraction(10**400, 3)), "in")
     p["py_huge_int"] = 10**400
     p["py_huge_neg"] = -(10**400)
+    p["q_m_cap"] = ObtainQuantity("m", "length", "measured depth")  # a caption on a KNOWN unit
+    p["s_m_cap_x"] = Scalar(ObtainQuantity("m", "length", "measured depth"), x)
+    p["q_m2_cap"] = Quantity.CreateDerived(__import__("collections").OrderedDict([("length", ["m", 2])]), unknown_unit_caption="swept")
+    p["frac_3_2"] = Fraction(3, 2)
+    p["fv_1_half"] = FractionValue(1, (1, 2))  # the same amount as frac_3_2, another class
+    p["fv_1.5"] = FractionValue(1.5)
     p["us_ab"] = UnitSystem("o", "O", {"length": "m", "time": "s"})
     us_ba = UnitSystem("o", "O", {"time": "s"})
     us_ba.SetDefaultUnit("length", "m")  # the same mapping filled in another order
@@ -210,6 +221,25 @@ def run(cfg, V):
         if cfg["side"] == "left":
             a, b = b, a
         return {"res": [_try(f) for f in (lambda: a < b, lambda: a <= b, lambda: a > b, lambda: a >= b)]}
+    if k == "order_aux":
+        from fractions import Fraction as _F
+
+        db_ = get_db("default")
+        iu, iv = db_.GetInfo(cfg["qt"], cfg["u"]), db_.GetInfo(cfg["qt"], cfg["v"])
+        bad = []
+        cls = Scalar if cfg["cls"] == "Scalar" else FractionScalar
+        for xa, xb in ((1e-10, 5e-8), (5e-8, 1e-10), (1e-12, 2e-12), (3e-9, 1e-9), (1e-15, -1e-15), (1e300, 2e300), (123456789.123, 123456789.124), (1e-9, 1.0), (2e-10, 1e-10), (7e-7, 7.1e-7),
+                       (0.0, 1e-11), (-4e-10, 3e-10)):
+            a, b = cls(xa, cfg["u"], cfg["qt"]), cls(xb, cfg["v"], cfg["qt"])
+            # exact rational physical amounts from the published coefficients (A + B x) / C
+            pa, pb = [(_F(i.tobase.__a__) + _F(i.tobase.__b__) * _F(t)) / _F(i.tobase.__c__) if hasattr(i.tobase, "__a__") else _F(t) for i, t in ((iu, xa), (iv, xb))]
+            if abs(pa - pb) <= _F(1, 10**9) * max(abs(pa), abs(pb)):
+                continue  # amounts this close may legitimately compare either way after float conversion
+            got = (a < b, a <= b, a > b, a >= b, b < a, b <= a, b > a, b >= a)
+            want = (pa < pb, pa <= pb, pa > pb, pa >= pb, pb < pa, pb <= pa, pb > pa, pb >= pa)
+            if got != want:
+                bad.append((xa, xb, got, want))
+        return {"aux_bad": bad}
     if k == "order_fp":
         a, b = Scalar(x, cfg["u"]), Scalar(y, cfg["u"])
         return {"ab": (a < b, a <= b, a > b, a >= b), "ba": (b < a, b <= a, b > a, b >= a), "eq": (a == b, b == a, a != b)}
@@ -262,6 +292,8 @@ def props(cfg, T, obs):
         if cfg.get("canary"):
             P.append(("canary:a<b whenever x<y (ignoring units)", B(lt) == (x < y)))
         return P
+    if k == "order_aux":
+        return [("auxiliary, concrete (not solver-decided): clearly different amounts of extreme magnitude in mixed units are ordered like their exact physical amounts, both operand orders", obs["aux_bad"] == [])]
     if k == "order_cross":
         return [("ordering values of different quantity types raises TypeError (all four operators)", all(r == ("raised", "TypeError") for r in obs["res"]))]
     if k == "order_fp":
